@@ -1093,6 +1093,15 @@ impl Tcb {
                  || (segment.header.ctl.sfin() && final(self).rcv.nxt == add32(old(self).rcv.nxt, (a + 1) as u32)))
             &&& final(self).rcv.irs == old(self).rcv.irs
         }),   //# appended_bytes_continue_the_stream [C01,C12]
+        // (C01) RFC 9293 3.4 / 3.10.7.3: text carried by the SYN,ACK that completes an active open occupies the sequence numbers
+        //       after the SYN and is delivered from its first octet, as far as the buffer has room
+        (old(self).state == State::SynSent && segment.header.ctl.ssyn() && !segment.header.ctl.srst() && !segment.header.ctl.sfin()
+            && final(self).state == State::Established) ==> ({
+            let a = final(self).incoming.text@.len() - old(self).incoming.text@.len();
+            &&& a == vstd::math::min(segment.text@.len() as int, 65535 - old(self).incoming.text@.len())
+            &&& final(self).incoming.text@.subrange(old(self).incoming.text@.len() as int, old(self).incoming.text@.len() + a) == segment.text@.subrange(0, a)
+            &&& final(self).rcv.nxt == add32(segment.header.seq, (1 + a) as u32)
+        }),   //# text_on_a_syn_is_delivered_whole [C01,C12]
         // (C01, C03) RFC 9293 3.10.7.4 seventh: in ESTABLISHED / FIN-WAIT-1 / FIN-WAIT-2 acceptable text is taken, as far as the buffer has room
         ((old(self).state == State::Established || old(self).state == State::FinWait1 || old(self).state == State::FinWait2)
             && r == ProcessSegmentResult::Success && !segment.header.ctl.ssyn() && !segment.header.ctl.srst()
@@ -1155,6 +1164,10 @@ impl Tcb {
             reveal(heap_valid);
             let hs = heap_seq(tcb.incoming.segments);
             assert(hs.len() == 1);
+            assert(hs[0].header == seg && hs[0].text == message);
+            // seg.ctl == with_flag(with_flag(c0, 1, false), 4, false): the SYN bit (1) stays cleared
+            lemma_with_flag(segment.header.ctl.0, 1, false, 1);
+            lemma_with_flag(with_flag(segment.header.ctl, 1, false).0, 4, false, 1);
             assert(tcb.outgoing.retransmit@.len() == 1);
             assert(tcb.outgoing.retransmit@.last() == tcb.outgoing.retransmit@[0]);
         }
@@ -1171,6 +1184,13 @@ impl Tcb {
             && t.outgoing.retransmit@.len() == 1 && t.outgoing.retransmit@[0].segment.header.seq == iss
             && t.outgoing.retransmit@[0].segment.header.ctl.ssyn() && t.outgoing.retransmit@[0].segment.header.ctl.sack()
             && t.outgoing.retransmit@[0].segment.header.ack == add32(segment.header.seq, 1)),   //# syn_creates_tcb_in_syn_received [C03,C12]
+        // (C01) RFC 9293 3.4 / 3.10.7.2 third: text carried by the SYN is queued for processing after the handshake; with the
+        //       SYN consumed it occupies the sequence numbers from IRS+1 on, so that no octet of it is skipped
+        (!segment.header.ctl.srst() && !segment.header.ctl.sack() && segment.header.ctl.ssyn()) ==> (r matches Some(ListenResult::Tcb(t))
+            && heap_seq(t.incoming.segments).len() == 1
+            && heap_seq(t.incoming.segments)[0].header.seq == add32(segment.header.seq, 1)
+            && heap_seq(t.incoming.segments)[0].text@ == segment.text@
+            && !heap_seq(t.incoming.segments)[0].header.ctl.ssyn()),   //# text_on_a_syn_is_queued_at_irs_plus_one [C01,C12]
 //@ end
 
 } // verus!
